@@ -143,7 +143,8 @@ CLAIMS = {
          "or -1 exactly when no move improves by more than the threshold; _change_bucket / _add_bucket realise the intended move and keep the "
          "bucket numbering dense; every accepted move lowers the true score by the recorded delta; the loop terminates (fuel bound proved and "
          "used by the judges); its result passes local_opt, which is sound: no single-element move into an existing bucket or a new bucket at any "
-         "position improves the returned ranking by more than 0.001 (C08_bio_one, C08_bioconsert_local_optimum). Tie to the code: the model "
+         "position improves the returned ranking by more than 0.001 (C08_bio_one, C08_bioconsert_local_optimum; in the terms of the statement, "
+         "with generalized Kemeny scores of rankings over the elements: C08_local_optimum_over_elements). Tie to the code: the model "
          "returns exactly the vector and delta of the jitted _improve_one_ranking from every tie/order pattern of length <= 4 and random vectors "
          "up to 8 elements, and predicts the API's consensus and score under 7 starter configurations; every returned ranking is also run "
          "through local_opt in Coq.",
